@@ -41,6 +41,18 @@ def run (kv : List (String × String)) : IO Res := do
       if got != want then return .propfail s!"raw stream {name} is not a byte copy of what the kernel reports" tags
       tags := s!"raw.{name}" :: tags
     | none => return .propfail s!"raw stream {name} missing" tags
+  -- the release file: /etc/lsb-release, else /etc/os-release (whichever can be read first)
+  let rel ← do
+    match ← readFile "/etc/lsb-release" with
+    | some b => pure (some b)
+    | none => readFile "/etc/os-release"
+  match rel, streamBytes lc.img lc.dir ST_LINUX_LSB_RELEASE with
+  | some want, some got =>
+    if got != want then return .propfail "release stream is not a byte copy of /etc/lsb-release (or /etc/os-release)" tags
+    tags := "raw.release" :: tags
+  | some _, none => return .propfail "release stream missing although a release file is readable" tags
+  | none, some _ => return .propfail "release stream present although no release file is readable" tags
+  | none, none => pure ()
   let some wantStatus ← readFile s!"{base}.status" | return .bad "status"
   match streamBytes lc.img lc.dir ST_LINUX_PROC_STATUS with
   | some got => if maskStatus got != maskStatus wantStatus then return .propfail "status stream differs (beyond the scheduling-dependent lines)" tags
@@ -76,6 +88,12 @@ def run (kv : List (String × String)) : IO Res := do
   let some si := decodeSystemInfo lc.img sd | return .propfail "system info unreadable" tags
   let some cpuB ← readFile s!"{base}.cpuinfo" | return .bad "cpuinfo"
   if si.platform != 0x8201 then return .propfail s!"platform id {si.platform}" tags
+  -- the OS version string names the running system
+  if let some un ← readFile s!"{base}.uname" then
+    let want := encode16 ((String.fromUTF8? un).getD "").toList
+    let got := (readString lc.img.rd si.csdRva).getD []
+    if got != want then return .propfail s!"OS version string differs from what uname reports (lengths {got.length} / {want.length})" tags
+    tags := "osversion.checked" :: tags
   if si.arch != 9 then return .propfail s!"processor architecture {si.arch}" tags
   let cpufail := get kv "cpufail" == some "1"
   if cpufail then tags := "sysinfo.cpufail" :: tags
